@@ -203,3 +203,163 @@ func RunFlowMust(p *Prog, r *Report, area string, scope func(string) bool) {
 		}
 	}
 }
+
+// LOOP-MUST (flow areas, Tier II): FLOW-MUST leaves out everything inside loops. The per-element constraints of a
+// gadget (one recomposition equality and one range check per collected variable, one byte check per limb) live in
+// loops; a "fast path" that `continue`s around them for some elements keeps every flow fact and every
+// unconditional count. Counted per function: the constraint sites in blocks that run in EVERY iteration of their
+// loop (every path from the loop header back to it passes the block); a call in such a block to a module function
+// counts what that callee executes unconditionally plus its own loop sites; unconditional calls pass the callee's
+// loop sites up. So moving a loop or its body into a helper leaves the count unchanged; making a per-iteration
+// constraint conditional lowers it. The count per kind must not fall below the reviewed one (rules/flow.json: fnloop).
+
+func (m *mustEngine) loopCounts(fn *ssa.Function, memo map[*ssa.Function]map[string]int, inprog map[*ssa.Function]bool) map[string]int {
+	if c, ok := memo[fn]; ok {
+		return c
+	}
+	if inprog[fn] || fn.Blocks == nil {
+		return nil
+	}
+	inprog[fn] = true
+	defer delete(inprog, fn)
+	out := map[string]int{}
+	add := func(src map[string]int) {
+		for k, n := range src {
+			out[k] += n
+			if out[k] > mustCap {
+				out[k] = mustCap
+			}
+		}
+	}
+	rets := successReturnBlocks(m.p, fn)
+	for _, b := range fn.Blocks {
+		inLoop, always := mustRunInLoop(b)
+		uncond := len(rets) > 0
+		for _, r := range rets {
+			if b != r && !b.Dominates(r) {
+				uncond = false
+				break
+			}
+		}
+		perIter := inLoop && always
+		if !perIter && !uncond {
+			continue
+		}
+		for _, ins := range b.Instrs {
+			c, ok := ins.(*ssa.Call)
+			if !ok {
+				continue
+			}
+			cc := &c.Call
+			if cc.IsInvoke() {
+				if perIter && (frontendIface(cc.Value.Type()) || isAnonIface(cc.Value.Type())) && sinkMethods[cc.Method.Name()] {
+					out[cc.Method.Name()]++
+				}
+				continue
+			}
+			cal := calleeOf(c)
+			if cal == nil || FuncPkg(cal) == nil || !strings.HasPrefix(FuncPkg(cal).Path(), modPath+"/") {
+				continue
+			}
+			if perIter {
+				add(m.counts(cal))
+			}
+			add(m.loopCounts(cal, memo, inprog))
+		}
+	}
+	memo[fn] = out
+	return out
+}
+
+func fnLoop(p *Prog, scope func(string) bool) (map[string]map[string]int, map[string]*ssa.Function) {
+	m := newMustEngine(p)
+	memo := map[*ssa.Function]map[string]int{}
+	out := map[string]map[string]int{}
+	rep := map[string]*ssa.Function{}
+	for _, fn := range p.Funcs {
+		pk := FuncPkg(fn)
+		if pk == nil || fn.Parent() != nil || (fn.Synthetic != "" && !strings.HasPrefix(fn.Synthetic, "instance of")) || fn.Blocks == nil || !scope(pk.Path()) {
+			continue
+		}
+		c := m.loopCounts(fn, memo, map[*ssa.Function]bool{})
+		if len(c) == 0 {
+			continue
+		}
+		k := Abstract(FuncName(fn)) + " | loop-sites"
+		if old, ok := out[k]; ok {
+			for kind, n := range old {
+				if c[kind] < n {
+					old[kind] = c[kind]
+				}
+			}
+			for kind := range old {
+				if old[kind] == 0 {
+					delete(old, kind)
+				}
+			}
+		} else {
+			cp := map[string]int{}
+			for kind, n := range c {
+				cp[kind] = n
+			}
+			out[k] = cp
+			rep[k] = fn
+		}
+	}
+	return out, rep
+}
+
+func RunFlowLoop(p *Prog, r *Report, area string, scope func(string) bool) {
+	ref, err := loadFlowRef()
+	if err != nil || ref.FnLoop == nil {
+		return
+	}
+	cur, rep := fnLoop(p, scope)
+	var ks []string
+	for k := range ref.FnLoop[area] {
+		ks = append(ks, k)
+	}
+	sort.Strings(ks)
+	for _, k := range ks {
+		req := ref.FnLoop[area][k]
+		parts := strings.SplitN(k, " | ", 2)
+		c, ok := cur[k]
+		if !ok {
+			exists := false
+			for _, fn := range p.Funcs {
+				if fn.Parent() == nil && Abstract(FuncName(fn)) == parts[0] {
+					exists = true
+					rep[k] = fn
+					break
+				}
+			}
+			if !exists {
+				r.Add(&Obligation{Rule: "LOOP-MUST", Pkg: "-", Func: parts[0], Key: "loop-sites", Pos: "-", OK: true, Info: true, Detail: "function no longer exists (renamed / restructured): not evaluated"})
+				continue
+			}
+			c = map[string]int{}
+		}
+		var miss []string
+		for _, q := range req {
+			i := strings.Index(q, "#")
+			var n int
+			fmt.Sscanf(q[i+1:], "%d", &n)
+			if c[q[:i]] < n {
+				miss = append(miss, fmt.Sprintf("%s (now %d)", q, c[q[:i]]))
+			}
+		}
+		pkg := parts[0]
+		if i := strings.LastIndex(pkg, "."); i > 0 {
+			pkg = strings.TrimLeft(pkg[:i], "(*")
+		}
+		pos := "-"
+		if fn := rep[k]; fn != nil {
+			pos = p.Pos(FuncPos(fn))
+		}
+		if len(miss) == 0 {
+			r.Pass("LOOP-MUST", pkg, parts[0], "loop-sites", pos, "constraint sites executed in every iteration of their loop: at least "+strings.Join(req, " "), true)
+		} else {
+			r.Fail("LOOP-MUST", pkg, parts[0], "loop-sites", pos, "fewer constraint sites run in every iteration of their loop than reviewed: "+strings.Join(miss, ", ")+" — a per-element constraint was dropped or made conditional (a fast path that skips it for some elements)")
+		}
+	}
+}
